@@ -38,6 +38,9 @@ impl PreprocessedText {
     }
 
     fn push<T: AsRef<Path>>(&mut self, s: &str, origin: Option<(T, Range)>) {
+        if s.is_empty() {
+            return;
+        }
         let base = self.text.len();
         self.text.push_str(s);
 
